@@ -152,6 +152,9 @@ type ConfCase struct {
 	OverExtra map[string]any // further rule level properties (cache_ttl)
 	EmptyOver bool           // WithConfig with an empty map
 	Metadata  bool           // metadata_endpoint instead of jwks_endpoint
+	// MetaIssuerSuffix: the served metadata document names the issuer the URL stands for PLUS these characters (another
+	// tenant with a similar name): RFC 8414 3.3 demands the document to be refused
+	MetaIssuerSuffix string
 	SubjectID string         // custom subject.id ("" = default sub)
 	SubjectAt string         // custom subject.attributes
 	Quick     bool
@@ -204,6 +207,9 @@ func confCases(alg string) []ConfCase {
 		{Name: "proto-custom-subject", Quick: true, Proto: minimal, SubjectID: "uid", SubjectAt: "ctx"},
 		{Name: "metadata-with-configured-issuers", Quick: true, Proto: minimal, Metadata: true},
 		{Name: "metadata-issuer-from-document", Metadata: true, Proto: Assertions{Allowed: allowX}},
+		{Name: "metadata-document-names-an-issuer-one-character-longer", Quick: true, Metadata: true, MetaIssuerSuffix: "2",
+			Proto: Assertions{Allowed: allowX}},
+		{Name: "metadata-document-names-a-sub-path-of-the-issuer", Metadata: true, MetaIssuerSuffix: "/tenant", Proto: Assertions{Allowed: allowX}},
 		{Name: "rule-empty-override", Proto: full, EmptyOver: true},
 		{Name: "rule-excludes-alg", Proto: minimal, Override: &Assertions{Allowed: excl}},
 		{Name: "rule-reenables-alg", Proto: Assertions{Issuers: []string{iss1}, Allowed: excl}, Override: &Assertions{Allowed: []string{alg}}},
@@ -289,7 +295,7 @@ func installTransport() {
 			return env.Reply(nil, http.StatusOK, "application/json", current.jwksBody), nil
 		case strings.HasSuffix(r.URL, "/.well-known/openid-configuration"):
 			return env.Reply(nil, http.StatusOK, "application/json",
-				string(mustJSON(map[string]any{"issuer": issMeta, "jwks_uri": jwksURL}))), nil
+				string(mustJSON(map[string]any{"issuer": issMeta + current.conf.MetaIssuerSuffix, "jwks_uri": jwksURL}))), nil
 		}
 
 		return env.Reply(nil, http.StatusNotFound, "text/plain", "not found"), nil
@@ -413,7 +419,7 @@ func newRuntime(sc Scenario) (*runtime, error) {
 	if conf.Metadata && len(protoAss.Issuers) == 0 {
 		// "If metadata_endpoint is used, the list of issuers is optional, as the issuer will be resolved via the
 		// auth server metadata document."
-		protoAss.Issuers = []string{issMeta}
+		protoAss.Issuers = []string{issMeta + conf.MetaIssuerSuffix}
 	}
 
 	effective := protoAss
@@ -442,6 +448,8 @@ func newRuntime(sc Scenario) (*runtime, error) {
 
 	rt.expect = effective.expect(idFrom, attrFrom)
 	rt.protoOnly = protoAss.expect(idFrom, attrFrom)
+	rt.expect.RefuseAll = conf.MetaIssuerSuffix != ""
+	rt.protoOnly.RefuseAll = rt.expect.RefuseAll
 
 	switch sc.Cache {
 	case "memory":
